@@ -4,6 +4,7 @@ import (
 	"fmt"
 	"go/token"
 	"go/types"
+	"strings"
 
 	"golang.org/x/tools/go/ssa"
 
@@ -44,6 +45,7 @@ func isStdCall(v ssa.Value, pkg, name string) (*ssa.Call, bool) {
 
 func runC15(p *core.Program, r *core.Report) {
 	c := rc{p, r}
+	noAnswerBeforeTheScan(c, "gogu.ToLower", "gogu.ToUpper", "gogu.Capitalize", "gogu.WrapAllRune", "gogu.ReverseStr", "gogu.SplitAtIndex")
 	hygiene(c, "string.go")
 
 	// ---------------- case mapping
@@ -257,6 +259,16 @@ func runC15(p *core.Program, r *core.Report) {
 				ws[0].Block() == ws[1].Block() && ws[1].Block() == ws[2].Block() && !path.InCycle(ws[0].Block())
 		}
 		c.ob("PT2", "gogu.Wrap", "writes token, payload, token", c.fpos(fn), okW, "Wrap must write the token, the string and the token again, in this order, exactly once each")
+		// ... and every return hands back what was written (the builder's String())
+		for _, alt := range returnAlternatives(fn, 0) {
+			okS := false
+			if call, ok := path.Strip(alt.val).(*ssa.Call); ok {
+				if cal := call.Call.StaticCallee(); cal != nil && cal.Name() == "String" && cal.Signature.Recv() != nil && strings.Contains(cal.Signature.Recv().Type().String(), "strings.Builder") {
+					okS = true
+				}
+			}
+			c.ob("PV1", "gogu.Wrap", "returns what was written", p.InstrPos(alt.ret), okS && len(ws) == 3 && (ws[2].Block() == alt.blk || ws[2].Block().Dominates(alt.blk)), "a return of Wrap hands back something other than the builder's contents after the three writes: some inputs come back unwrapped")
+		}
 	}
 	if fn := c.fn("gogu.WrapAllRune"); fn != nil {
 		ws := writes(fn)
